@@ -517,7 +517,64 @@ def check_C10(ctx):
     return finish_with_proofs(ctx)
 
 
-CHECKS = {'C01': check_C01, 'C02': check_C02, 'C10': check_C10, 'C03': check_C03, 'C04': check_C04, 'C05': check_C05, 'C06': check_C06}
+# ------------------------------------------------------------------ C11 -----
+def check_C11(ctx):
+    import framework
+    proofs_or_violation(ctx, ['Properties_C11.v'])
+    S = CodecStreams(ctx)
+    pool = S.pool
+    rows = [r for r in S.run_enc() if r['h'] and r['h']['st'] == '0']
+    by_type = {}
+    for r in rows:
+        by_type.setdefault(r['tid'], []).append(r)
+    items, hcases = [], []
+    per = 6 if ctx.quick else 40
+    for tid, rs in by_type.items():
+        if has_unbounded(pool.types[tid]):
+            continue
+        for r in rs:
+            others = [ctx.rng.choice(rs) for _ in range(per)]
+            muts = [m for _, m in mutations(r['h']['bytes'], ctx.rng, per)]
+            for q in others:
+                # (a) prior built by assignment, then valid and mutated inputs
+                items.append((tid, r['h']['bytes'], '-', 'assigned', q['input']))
+                # (b) prior left by a successful read
+                hcases.append((tid, 'ok-read', 'hostile T%d inst %s %s' % (tid, q['h']['bytes'], r['h']['bytes'])))
+            for m in muts:
+                items.append((tid, m, '-', 'assigned-mut', ctx.rng.choice(rs)['input']))
+                # (c) prior left by a failed (or odd) read
+                hcases.append((tid, 'failed-read', 'hostile T%d inst %s %s' % (tid, m, r['h']['bytes'])))
+    # (a): read into the prior vs read into a fresh object
+    rows_p = S.run_dec(items)
+    fresh = S.run_dec([(i, hx, hs, tag, None) for (i, hx, hs, tag, p) in items])
+    broken = []
+    for d, f in zip(rows_p, fresh):
+        ctx.count('prior:' + d['tag'], d['case'], nontrivial=d['h'] is not None)
+        if d['h'] is None or f['h'] is None:
+            ctx.violate('harness-crash:dec', 'reader crashed: %s -> %s' % (d['case'][:160], d['hraw'][:300]), {'case': d['case'], 'output': d['hraw']})
+            continue
+        a, b = d['h'], f['h']
+        if a.get('st') != b.get('st') or (a.get('st') == '0' and (not val_eq(a.get('val'), b.get('val')) or a.get('consumed') != b.get('consumed'))):
+            ctx.violate('prior-dependent', 'reading into an object holding a prior value gave a different result than into a fresh object: %s -> %s vs fresh %s'
+                        % (d['case'][:200], d['hraw'][:120], f['hraw'][:120]),
+                        {'type': type_desc(pool, d['tid']), 'case': d['case'], 'with_prior': d['hraw'], 'fresh': f['hraw']})
+        elif d['m'] is not None and a.get('st') != d['m'].get('st'):
+            broken.append(d)
+    ho = run_harness(pool, [c[2] for c in hcases])
+    for (tid, kind, line), o in zip(hcases, ho):
+        ctx.count('prior:' + kind, line)
+        if o.startswith(('CRASH', 'HARNESS', 'OOM', 'EXCEPTION')):
+            ctx.violate('memory-error', 'reading twice into one object crashed or tripped a sanitizer: %s -> %s' % (line[:160], o[:300]), {'case': line, 'output': o})
+        elif sx.fields(o).get('reuse') != 'ok':
+            ctx.violate('prior-dependent:' + kind, 'an object left by an earlier %s does not read like a fresh one: %s -> %s' % (kind, line[:200], o[:300]),
+                        {'type': type_desc(pool, tid), 'case': line, 'output': o})
+    for e in framework.EXIT_PROBLEMS:
+        ctx.violate('leak-or-exit-error', 'the harness process reported a leak or an error at exit: ' + e[:300], {'stderr': e})
+    report_broken(ctx, broken, 'dec-prior', 'Deserializer::Read status = model dec status')
+    return finish_with_proofs(ctx)
+
+
+CHECKS = {'C01': check_C01, 'C02': check_C02, 'C10': check_C10, 'C11': check_C11, 'C03': check_C03, 'C04': check_C04, 'C05': check_C05, 'C06': check_C06}
 
 
 def run(pid, tier, seed, replay=None):
